@@ -770,9 +770,16 @@ def run_lsc(families, thorough):
     return C.par([lambda j=j: one(j) for j in jobs])
 
 
+UNIVERSAL = ('unexpected-stream-error', 'fatal-error-not-raised', 'fatal-error-wrong')
+
+
 def main(prop):
     def _main(tier, replay):
-        P = PROPS[prop]
+        P = dict(PROPS[prop])
+        rel0 = P['relevant']
+        # a stream that dies (or survives) unexpectedly loses outputs of whatever
+        # operator family is being exercised: relevant to every property
+        P['relevant'] = lambda n: rel0(n) or n in UNIVERSAL
         if replay:
             return MC.replay(prop, replay, P['relevant'])
         C.use_repo()
